@@ -6,6 +6,9 @@ mod trace;
 #[cfg(test)]
 mod tests;
 
+#[cfg(rsjsonnet_verif)]
+pub(crate) mod verif_heap;
+
 pub(crate) trait GcTrace {
     fn trace<'a>(&self, ctx: &mut impl GcTraceCtx<'a>)
     where
